@@ -460,7 +460,7 @@ class LinearOperations(Operations):
             The normalized array.
 
         """
-        z = x / x.sum(axis=None)
+        z = x / x.sum(axis=axis, keepdims=axis is not None)
         return z
 
 
@@ -739,7 +739,12 @@ class LogOperations(Operations):
         """
         # The API way would be:  mult(x, invert( add_reduce(x) ))
         # We'll avoid some of those function calls.
-        z = x - self.add_reduce(x, axis=axis)
+        norm = self.add_reduce(x, axis=axis)
+        if axis is not None:
+            # keep the reduced axis so that each row (column) is shifted by
+            # its own normalization
+            norm = np.expand_dims(norm, axis)
+        z = x - norm
         return z
 
 
